@@ -215,3 +215,93 @@ Proof.
   inversion H as [|? ? [c [Hc Hne]] Hr]; subst. unfold srun. cbn [fold_left]. fold (srun ls (sstep l s)).
   rewrite IH by exact Hr. apply (s_handler_isolation l s c d Hc Hne).
 Qed.
+
+(** ... and what such a handler makes observable (replies to the application, writes, conclusions, callbacks, connect /
+    disconnect notifications) concerns that client only. *)
+Definition ev_client (e : sev) : option Z :=
+  match e with
+  | SRet c _ _ | SWr c _ | SConc c _ _ | SCb c _ _ _ | SNoCb c _ _ | SNew c | SGone c => Some c
+  | SPanic => None
+  end.
+
+Definition only_about (c : Z) (s s' : sv) : Prop :=
+  exists new, str s' = new ++ str s /\ Forall (fun e => ev_client e = Some c) new.
+
+Lemma only_about_refl c s : only_about c s s.
+Proof. exists []. split; [reflexivity|constructor]. Qed.
+
+Lemma only_about_trans c s1 s2 s3 : only_about c s1 s2 -> only_about c s2 s3 -> only_about c s1 s3.
+Proof.
+  intros [n1 [E1 F1]] [n2 [E2 F2]]. exists (n2 ++ n1). split.
+  - rewrite E2, E1, app_assoc. reflexivity.
+  - apply Forall_app. split; assumption.
+Qed.
+
+Lemma only_about_semit c s e : ev_client e = Some c -> only_about c s (semit s e).
+Proof. intros H. exists [e]. split; [reflexivity|constructor; [exact H|constructor]]. Qed.
+
+Lemma only_about_same_str c s s' : str s' = str s -> only_about c s s'.
+Proof. intros H. exists []. split; [exact H|constructor]. Qed.
+
+Lemma only_about_fold c l s : only_about c s (fold_left (fun st cb => semit st (SCb c cb 0 K_DISC)) l s).
+Proof.
+  revert s. induction l as [|x l IH]; intros s; cbn [fold_left]; [apply only_about_refl|].
+  eapply only_about_trans; [apply (only_about_semit c s (SCb c x 0 K_DISC)); reflexivity|apply IH].
+Qed.
+
+Lemma only_about_on_disconnected c s : only_about c s (on_disconnected s c).
+Proof.
+  unfold on_disconnected. cbv zeta.
+  set (s1 := upd_qm s (a_del (qm s) c)).
+  set (s2 := if running s1 then upd_reqC s1 (reqC s1 ++ [c]) else s1).
+  set (s3 := upd_pendm s2 (a_del (pendm s2) c)).
+  set (s4 := fold_left (fun st cb => semit st (SCb c cb 0 K_DISC)) (cbs_of s3 c) s3).
+  assert (A3 : only_about c s s3).
+  { apply only_about_same_str. subst s3 s2 s1. destruct (running _); reflexivity. }
+  assert (A4 : only_about c s s4) by (eapply only_about_trans; [exact A3|apply only_about_fold]).
+  assert (A5 : only_about c s (set_cbs s4 c [])).
+  { eapply only_about_trans; [exact A4|]. apply only_about_same_str. reflexivity. }
+  destruct (drain (set_cbs s4 c [])); [|exact A5].
+  eapply only_about_trans; [exact A5|apply only_about_semit; reflexivity].
+Qed.
+
+Lemma str_scomplete b s c r : str (scomplete b s c r) = str s.
+Proof.
+  unfold scomplete. destruct (qof s c) as [[|h t]|]; try reflexivity.
+  destruct (h =? r); [|reflexivity]. cbv zeta.
+  destruct (pendof (upd_qm s (a_set (qm s) c t)) c =? r);
+    match goal with |- context [if ?b then _ else _] => destruct b end; reflexivity.
+Qed.
+
+Lemma only_about_deliver c s r k : only_about c s (deliver s c r k).
+Proof.
+  unfold deliver. destruct (cbs_of s c) as [|cb rest].
+  - apply only_about_semit. reflexivity.
+  - eapply only_about_trans; [apply (only_about_same_str c s (set_cbs s c rest)); reflexivity|apply only_about_semit; reflexivity].
+Qed.
+
+Theorem s_handler_speaks_of_its_client : forall l s c, concerns l c -> only_about c s (sstep l s).
+Proof.
+  intros l s c Hc. destruct l; cbn [concerns] in Hc; try contradiction; subst.
+  - (* Connect *)
+    cbn [sstep]. destruct (mem c (conns s)); [apply only_about_refl|]. cbv zeta.
+    set (s1 := upd_conns s (conns s ++ [c])).
+    eapply only_about_trans; [|apply only_about_semit; reflexivity].
+    apply only_about_same_str. destruct (running s1); [destruct (qof s1 c)|]; reflexivity.
+  - (* Disconnect *)
+    cbn [sstep]. destruct (mem c (conns s)); [|apply only_about_refl].
+    eapply only_about_trans; [apply (only_about_same_str c s (upd_conns s (del c (conns s)))); reflexivity|apply only_about_on_disconnected].
+  - (* SSend *)
+    cbn [sstep]. cbv zeta. set (s1 := set_cbs s c (cbs_of s c ++ [r])).
+    match goal with |- context [if ?b then _ else _] => destruct b end.
+    + eapply only_about_trans; [|apply only_about_semit; reflexivity]. apply only_about_same_str. reflexivity.
+    + eapply only_about_trans; [|apply only_about_semit; reflexivity]. apply only_about_same_str. reflexivity.
+  - (* SReply *)
+    cbn [sstep]. match goal with |- context [if ?b then _ else _] => destruct b end; [|apply only_about_refl].
+    unfold sconclude.
+    eapply only_about_trans; [|apply only_about_deliver].
+    eapply only_about_trans; [apply (only_about_same_str c s (scomplete false s c r)); apply str_scomplete|].
+    apply only_about_semit. reflexivity.
+  - (* TimerTok *) cbn [sstep]. destruct (running s); apply only_about_same_str; reflexivity.
+  - (* SNetFail *) apply only_about_same_str. reflexivity.
+Qed.
